@@ -157,3 +157,18 @@ Definition state_matches_source (gs : list gen_group) (s : gen_state) : bool :=
 
 Theorem probes_are_the_source_basis : forallb (state_matches_source gen_groups) gen_bounds = true.
 Proof. vm_compute. reflexivity. Qed.
+
+(* ---- the state a group and a shape start from, as translated from the source *)
+Section InitialSource.
+  Variable NN : Num.
+  Notation T := (carrier NN).
+  Variable pi_ : T.
+
+  Theorem initial_state_is_source : forall radius n f m,
+    gen_initial_length NN radius n = initial_length_packed NN radius n
+    /\ gen_initial_length_potential NN radius n = initial_length_potential NN radius n
+    /\ gen_initial_angle NN pi_ f = initial_angle NN pi_ f
+    /\ gen_initial_ratio NN = initial_ratio NN
+    /\ gen_initial_site NN m = initial_site NN m.
+  Proof. intros radius n f m. repeat split; reflexivity. Qed.
+End InitialSource.
